@@ -85,12 +85,12 @@ def collect (es : List Elem) : List Elem := es.foldl (fun m e => insert e m) []
 
 def groupLengthElem (n : Nat) : Elem := ⟨0, .UL, .u32s [n]⟩
 
-/-- `command_from_iter_with_dict` as the snapshot has it: the length is summed over the *input*
+/-- `command_from_iter_with_dict` as it was before fix d1fe52b: the length summed over the *input*
 sequence while the map is collected. -/
 def commandInputSum (es : List Elem) : List Elem :=
   insert (groupLengthElem (cmdLen es)) (collect es)
 
-/-- the repaired construction: the length is summed over the elements that the map retains. -/
+/-- the construction (since fix d1fe52b): the length is summed over the elements that the map retains. -/
 def command (es : List Elem) : List Elem :=
   let m := collect es
   insert (groupLengthElem (cmdLen m)) m
